@@ -186,14 +186,14 @@ func matchPropTimeRange(start, end time.Time, field *ical.Prop) (bool, error) {
 
 func matchParamFilter(filter ParamFilter, field *ical.Prop) bool {
 	// TODO there can be multiple values
-	value := field.Params.Get(filter.Name)
-	if value == "" {
+	values := field.Params.Values(filter.Name)
+	if len(values) == 0 {
 		return filter.IsNotDefined
 	} else if filter.IsNotDefined {
 		return false
 	}
 	if filter.TextMatch != nil {
-		return matchTextMatch(*filter.TextMatch, value)
+		return matchTextMatch(*filter.TextMatch, values[0])
 	}
 	return true
 }
